@@ -77,6 +77,11 @@ theorem C12_roundtrip_api (m : Nat) (v : List Val) (hv : WellTyped apiSchema m v
     decode apiSchema m (encode apiSchema m v) = some v :=
   C12_roundtrip apiSchema schema_wf m v hv hlen
 
+-- some message type of the real schema is a one-field signed wrapper (OptionalInt & co); −1 in
+-- it is well-typed and takes the ten-byte sign-extended varint
+example : ∃ m, m < apiSchema.length ∧ WellTyped apiSchema m [.int (-1)] = true ∧
+    encode apiSchema m [.int (-1)] = [8, 255, 255, 255, 255, 255, 255, 255, 255, 255, 1] := by decide
+
 /-- **Size**: the size computed field by field (what `SizeVT` does) is the number of bytes
     the encoder writes — for every schema and every value, typed or not. -/
 theorem C12_size (S : Schema) (m : Nat) (v : List Val) : (encode S m v).length = size S m v :=
